@@ -251,7 +251,7 @@ struct Conn {
     int id = 0;
     // what the script delivered on this connection (for the oracles; independent of the model)
     int delivered = 0;
-    bool firstIsHeader = false, sawVersionlessHeader = false, sawIqRequest = false;
+    bool firstIsHeader = false, sawVersionlessHeader = false, sawIqRequest = false, sawCsiFeature = false, csiSent = false;
     QByteArray scramServerFirst;   // last SCRAM server-first message sent on this connection
 };
 
@@ -387,6 +387,7 @@ struct World {
             r.xml = text;
             sent.push_back(r);
             events.push_back(r.kind + (r.conn ? (r.enc ? "/e" : "/c") : "/x") + (r.secret.empty() ? "" : "!"));
+            if (r.kind.rfind("Csi", 0) == 0) { noteConns(); if (auto k = conn()) k->csiSent = true; }
         });
         QObject::connect(client.get(), &QXmppClient::connected, client.get(), [this]() { act++; connectedSignals++; connectedThisConn++; events.push_back("connected"); });
         QObject::connect(client.get(), &QXmppClient::disconnected, client.get(), [this]() { act++; disconnectedSignals++; events.push_back("disconnected"); });
@@ -604,6 +605,7 @@ struct Runner {
             k->delivered++;
             if (op == "hdr" && t.value(1) == "0") k->sawVersionlessHeader = true;
             if (op == "iqget" || op == "iqset") k->sawIqRequest = true;
+            if (op == "feat" && t.contains("c1")) k->sawCsiFeature = true;
         }
         if (op == "connect") {
             c.client->connectToServer(makeConfig(c.cfg, c.srvA.serverPort()));
@@ -1116,6 +1118,10 @@ static AttemptResult runAttempt(Session &s, const Policy &p, int cut, bool sendI
             if (claimed != srv.resumedNow) fail("C10:session-begin-resumed-flag-stale", s.replay());
             else oraclePass()++;
         }
+        // client state indication may only be sent to a server that advertised it on THIS connection (a resumed session keeps
+        // the features of the session it resumes)
+        if (auto k = w.conn(); k && k->csiSent && !k->sawCsiFeature && !srv.resumedNow) fail("C10:csi-state-sent-without-csi-feature", s.replay());
+        else oraclePass()++;
         // a session that was not resumed cannot answer the requests of the old one: they must be finished by now
         if (res.connectedSeen && !srv.resumedNow) {
             if (w.iqStarted - w.iqFinished != 0) fail("C10:request-outlives-new-session", s.replay());
@@ -1155,7 +1161,8 @@ static void exploreC10(Runner &r, Rng &rng, bool thorough)
     auto byName = [&](const char *n) { for (auto &p : pols) if (p.name == n) return p; fprintf(stderr, "harness: no policy %s\n", n); exit(3); };
     struct Pair { const char *p1; int cut; const char *p2; int cfg; };
     for (Pair pr : { Pair { "legacy", -1, "sasl-bind", 0 }, Pair { "tls-redirect", -1, "sasl-bind", 0 }, Pair { "redirect-in-session", -1, "sasl-bind", 0 },
-                     Pair { "sasl2-bind2-smr", 3, "sasl-bind-smr", 1 }, Pair { "sasl2-bind2-smr", 3, "sasl-bind-smr", 0 } }) {
+                     Pair { "sasl2-bind2-smr", 3, "sasl-bind-smr", 1 }, Pair { "sasl2-bind2-smr", 3, "sasl-bind-smr", 0 },
+                     Pair { "sasl-bind-smr", -1, "legacy", 1 } }) {
         experiment(r.w.settleTimeouts, nullptr, [&]() {
             Session s(r, cfgs[size_t(pr.cfg)]);
             bool resumable = false;   // does the client hold a resumable stream (from the scripts' point of view); survives failed attempts
@@ -1197,6 +1204,29 @@ static void exploreC10(Runner &r, Rng &rng, bool thorough)
                         for (int cut3 = 0; cut3 < (thorough ? 9 : 0); cut3++) triple(byName(a1), byName(a2), byName(b), ci, cut3, true);
                     }
     }
+    // (0c) thorough: three attempts with the same policy, EVERY cut point of the first x EVERY cut point of the second, then a full one
+    if (thorough)
+        for (size_t ci = 0; ci < 2; ci++)
+            for (auto &p : pols) {
+                bool last1 = false;
+                for (int cut1 = 0; cut1 < 16 && !last1; cut1++) {
+                    bool last2 = false;
+                    for (int cut2 = 0; cut2 < 16 && !last2; cut2++)
+                        experiment(r.w.settleTimeouts, nullptr, [&]() {
+                            Session s(r, cfgs[ci]);
+                            bool resumable = false;
+                            auto a1 = runAttempt(s, p, cut1, true, resumable);
+                            last1 = a1.reachedDone;
+                            cutAndCheck(s, resumable);
+                            auto a2 = runAttempt(s, p, cut2, true, resumable);
+                            last2 = a2.reachedDone;
+                            cutAndCheck(s, resumable);
+                            runAttempt(s, p, -1, false, resumable);
+                            stat("c10:runs");
+                            stat("c10:three-attempt-cut-grid");
+                        });
+                }
+            }
     // (1) every policy x every cut point, then a full attempt with the same policy
     for (size_t ci = 0; ci < cfgs.size(); ci++)
         for (auto &p : pols) {
